@@ -15,7 +15,8 @@
      round trips return the value and use exactly 4+n+pad bytes; no read buffer exceeds the documented limit; a declared
      length above the limit is an error with a small allocation volume; accepted values respect the limits and are
      the bytes of the input; fragmentations reassemble; writer output parses into fragments <= max and reads back. *)
-From Coq Require Import List NArith ZArith Bool String Ascii.
+From Coq Require Import String Ascii.
+From Coq Require Import List NArith ZArith Bool.
 From Verif Require Import Gen.Facts Model.Bytes Model.Xdr Model.Rpc Model.RecordMark Corr.Common.
 Import ListNotations.
 Open Scope N_scope.
